@@ -332,8 +332,12 @@ func diffKind(diff string) string {
 
 // ---- generators ----
 
-var subPool = []string{"", "Mouse", "Consumer Control", "System Control", "Keyboard"}
-var mapNamePool = []string{"Piano", "Chromatic", "Control", "Debug", "Drums 1", "Ünï", "a.b", "x"}
+var subPool = []string{"", "Mouse", "Consumer Control", "System Control", "Keyboard", "Touchpad", "Motion Sensors", "mouse", "Mouse ", "Клавиатура", "a.b", "x\"y"}
+
+// (a mapping is called whatever its author likes: names that differ in letter case or by a trailing blank only, names that
+// look like TOML, a very long one)
+var mapNamePool = []string{"Piano", "Chromatic", "Control", "Debug", "Drums 1", "Ünï", "a.b", "x", "piano", "Piano ", "0", "true", "say \"hi\"", "🎹 keys",
+	"[[mapping]]", "# no comment", "tab\there", strings.Repeat("long name ", 30), "Default", "default", " "}
 var allActions = []string{"mapping_up", "mapping_down", "mapping", "octave_up", "octave_down", "semitone_up", "semitone_down",
 	"channel_up", "channel_down", "channel", "multinote", "panic", "cc_learning", "exit"}
 
